@@ -61,7 +61,14 @@ def build_harness(tags="verif"):
             return True, "cached", binp
         os.makedirs(os.path.dirname(binp), exist_ok=True)
         shutil.copy(os.path.join(REPO, "go.sum"), os.path.join(HARNESS, "go.sum"))
-        rc, out = run(["go", "build", "-tags", tags, "-o", binp, "."], cwd=HARNESS, env=GOENV)
+        cmd = ["go", "build", "-tags", tags, "-o", binp, "."]
+        if REPO != "/repo":
+            # a scratch copy of the repository (background sweeps): same module file with the replace target changed
+            alt = os.path.join(HARNESS, "go.alt.mod")
+            open(alt, "w").write(open(os.path.join(HARNESS, "go.mod")).read().replace("=> /repo", "=> " + REPO))
+            shutil.copy(os.path.join(REPO, "go.sum"), os.path.join(HARNESS, "go.alt.sum"))
+            cmd = ["go", "build", "-modfile", alt, "-tags", tags, "-o", binp, "."]
+        rc, out = run(cmd, cwd=HARNESS, env=GOENV)
         if rc != 0:
             if os.path.exists(stamp):
                 os.remove(stamp)
